@@ -21,18 +21,18 @@ MDefault == [c \in MClass |-> [k \in MOpts |-> CASE k = "debug" -> "off"
                                                  [] k = "wrong_msg" -> "empty"
                                                  [] k = "tolerance" -> IF c = "NumericalGrader" THEN "ng_tol" ELSE "fg_tol"]]
 
-VARIABLES reg, h
+VARIABLES reg, h, obs
 R == INSTANCE DefaultsRegistry WITH Class <- MClass, Parent <- MParent, Opts <- MOpts, Vals <- MVals, Schema <- MSchema,
                                     Default <- MDefault
 
 Instantiable == {"StringGrader", "FormulaGrader", "NumericalGrader"}
 Explicits(c) == {R!Nothing, ("wrong_msg" :> "we")} \cup (IF "tolerance" \in MSchema[c] THEN {("tolerance" :> "te"), ("debug" :> "off")} ELSE {})
 \* what the adapter reads from the dump: every construction the state is observed through
-Observations == [c \in Instantiable |-> [E \in Explicits(c) |-> R!Construct(c, E)]]
+Observations == UNION {{[c |-> c, E |-> E, out |-> R!Construct(c, E)] : E \in Explicits(c)} : c \in Instantiable}
 
-Init == R!Init
-Next == Len(h) < MaxOps /\ R!Next
-Spec == Init /\ [][Next]_<<reg, h>>
+Init == R!Init /\ obs = Observations
+Next == Len(h) < MaxOps /\ R!Next /\ obs' = Observations'
+Spec == Init /\ [][Next]_<<reg, h, obs>>
 
 TypeOK == R!TypeOK
 InvPerClass == R!InvPerClass
@@ -42,6 +42,8 @@ InvMostDerivedWins == R!InvMostDerivedWins
 StepIsolation == R!StepIsolation
 StepClear == R!StepClear
 StepStacks == R!StepStacks
-\* not vacuous: some state refuses a construction, some state has a subclass shadowing its parent
-Alias == [reg |-> reg, h |-> h, obs |-> Observations]
+\* not vacuous (each must be REFUTED by TLC, see MC_DefaultsRegistry_vacuity.cfg): some history makes a construction fail,
+\* some history lets a subclass registration shadow its parent's
+NeverRefuses == \A o \in obs : o.out.k = "object"
+NeverShadows == \A c \in MClass : \A k \in MOpts : Len(R!Sources(c, k)) <= 1
 =============================================================================
